@@ -155,6 +155,29 @@ _p("C20", "The agent is a pure function of its inputs (sans-IO)", "exploration",
    "trusted: symbol interposition sees libc clock entry points only; other ambient channels (environment, files) would show up only if they influence replies",
    layers=["miri"])
 
+# Additions made after the seeded-change rounds (DESIGN.md 11.5): appended to the rule texts.
+_ADD = {
+    "C01": " Also requests with 16..1000 distinct unknown types under policing; every buffer also through the TryFrom entry points; values that look like nested STUN.",
+    "C02": " Also: every built-in type repeated two or three times in every valid/invalid combination (typed lookups answer with the first occurrence); TryFrom entry points agree with from_bytes; every 257th buffer the last eight are decoded again in reverse order as the first calls of a fresh thread and must give the same answers; values that look like nested STUN / sealing attributes.",
+    "C03": " Also: every total 65500..=65552 x every sealing set; programs with 255/256/257/300/1000/4097 attributes; every program also serialised into 0xA5/0xFF-filled destinations.",
+    "C04": " Also near-miss HMAC inputs (length not rewritten / excluding the attribute / total size / to end of buffer / zero, text including the attribute header, empty key, password or MD5(password) as key) and replay constructions ([.., X(h) at the genuine offset, forged.., MI(h)]).",
+    "C08": " Also in-memory raw values of 65536..196640 bytes for every type except ALTERNATE-DOMAIN (no limit documented by the crate).",
+    "C09": " Also eleven near-miss CRC relations substituted into ~4*10^5 messages (length not covering the attribute / total / zero, no XOR, byte orders, CRC-32C, body only, including own header, complemented, without the previous attribute), and every total 65500..=65552 builder- and reference-made.",
+    "C10": " Also: skip/nth/step_by/last/count/fold/by_ref adaptors must agree with next(); the exposure rule on every message the implementation accepts (also wrongly); HMAC replay constructions with the assertion that a successful validation means the exposed integrity attribute is correct over everything before it.",
+    "C11": " Also: every sequence up to length 4 starting from builder_success / builder_error / bad_request / unknown_attributes; the final state serialised through write_into (dirty destinations), clone, into_owned().write_into.",
+    "C12": " Also write_header / write_header_unchecked, to_raw().into_owned(), a second to_raw(), the raw attribute re-parsed from its own bytes; UnknownAttributes mutated between serialisations.",
+    "C13": " Also special-purpose ranges and XOR images (see DESIGN 11.5), repeated addr() calls under alternating ids on one object and its clone, in-place writes into reused buffers, boundary pairs as the first call of a fresh thread, scoped / flow-labelled IPv6 inputs (ip and port come back).",
+    "C16": " Also requests with 1..=120 distinct types (nothing / everything / every second / all but one supported).",
+    "C17": " Also the header decoder against the parser's own verdict on arbitrary headers (any length field), and every prefix through Message::try_from.",
+    "C19": " Also: bytes 0..2 of built messages (build and write_into) with bodies of 4..131072 bytes; every (class, method) built, decoded by the header decoder and the parser, and answered through builder_success / builder_error / bad_request / unknown_attributes; at least 70000 generate() calls on one thread.",
+}
+_AGENT_ADD = (" Additions: virtual time in microseconds (sub-millisecond advances and configure_timeout durations), clock rewinds (stale instants), an address universe of 8192 with IPv4-mapped twins in the core eight, bursts of up to 6000 peers and 1500 concurrent transactions, schedules extended after their last transmission, staggered service of simultaneously due transactions, responses with integrity attributes of impossible length, local credentials set.")
+for _k in ("C05", "C06", "C07", "C15", "C18"):
+    PROPS[_k]["rule"] += _AGENT_ADD
+PROPS["C20"]["rule"] += (" Additions: the observed outstanding / validated sets are part of the compared reply log; a variant with a tracing subscriber installed; each history also run without draining under the model and, if the model fails, on its single-transaction projections (interference); shapes: staggered service, many peers, many transactions, extended schedules, stale instants; environment reads (getenv) trapped like clock reads.")
+for _k, _t in _ADD.items():
+    PROPS[_k]["rule"] += _t
+
 # Every thorough run also executes the property's quick workload (another seed) on an
 # AddressSanitizer build of the harness (tools/layers.py, layer "asan").
 for _k, _v in PROPS.items():
